@@ -63,6 +63,9 @@ typedef struct pv_cur_t {
 } pv_cur_t;
 extern __thread pv_cur_t pv_cur;      /* per thread: the crash handler runs on the faulting thread */
 
+void pv_case_watchdog(long seconds);       /* called by a case that is legitimately slow: restarts the per-case watchdog with a longer period */
+extern const char* pv_last_api;
+extern const char* (*pv_hang_probe)(void);   /* optional: names the library call a worker thread is stuck in when the watchdog fires on another thread */
 int pv_main(int argc, char** argv, const char* prop, const pv_section* secs, int nsecs,
             void (*init)(void), void (*fini)(void));
 uint64_t pv_scaled(uint64_t quick, uint64_t thorough);  /* picks by tier, applies PV_SCALE */
